@@ -54,7 +54,8 @@ def run(ctx, tier):
                  ("K2", "only the decoded kernels depend on the instruction set"),
                  ("K6", "the AVX-512 IPv6 prefilter can only reject, identically in both URL types, and is pure"),
                  ("K4", "development-check code is effect-free"),
-                 ("K4b", "no statement exists only when development checks are off"), ("K5", "amalgamation is body-for-body identical")):
+                 ("K4b", "no statement exists only when development checks are off"), ("K5", "amalgamation is body-for-body identical"),
+                 ("K7", "the asserted offset-consistency predicate rejects only decreasing chains (empty components are legal)")):
         ctx.rule(r, t)
     cfgs = ["release", "ssse3", "avx512", "devchecks", "amalgamated"]     # the property is about configurations
     fxs = C.load_configs(ctx, cfgs)
